@@ -664,6 +664,19 @@ def positional_to_keyword(repo_root):
     return out
 
 
+class _TernaryToIf(ast.NodeTransformer):
+    """`name = A if c else B` (a statement of its own) becomes `if c: name = A  else: name = B`"""
+
+    def visit_Assign(self, node):
+        if len(node.targets) == 1 and isinstance(node.targets[0], ast.Name) and isinstance(node.value, ast.IfExp):
+            import copy as _c
+            ie = node.value
+            return ast.copy_location(ast.If(test=ie.test,
+                                            body=[ast.Assign(targets=[_c.deepcopy(node.targets[0])], value=ie.body)],
+                                            orelse=[ast.Assign(targets=[_c.deepcopy(node.targets[0])], value=ie.orelse)]), node)
+        return node
+
+
 def _apply(cls):
     def run(repo_root):
         out = {}
@@ -689,4 +702,5 @@ EXTRA.update({"unnest-else": _apply(_ElseUnnester), "nest-else": _apply(_ElseNes
               "result-temporary": _apply(_ResultTemporary), "alias-self-attributes": _apply(_SelfAttrAlias),
               "swap-comparisons": _apply(_CompareSwap), "comprehension-to-loop": _apply(_CompToLoop),
               "split-isinstance": _apply(_IsinstanceSplit), "split-chained-comparisons": _apply(_ChainSplit),
-              "dict-call": _apply(_DictCall), "positional-to-keyword": positional_to_keyword})
+              "dict-call": _apply(_DictCall), "positional-to-keyword": positional_to_keyword,
+              "ternary-to-if": _apply(_TernaryToIf)})
